@@ -247,6 +247,7 @@ def run_check(mod, tier, seed, nproc, triage=None, limit_units=None):
                 "property": prop, "site": site, "kind": kind, "count": len(vs),
                 "keys": sorted(v["key"] for v in vs),
                 "whats": [v["what"] for v in vs[:5]],
+                "items": [[v["key"], v["what"]] for v in vs],
                 "first_desc": vs[0]["desc"],
             })
         with open(triage, "w") as f:
